@@ -911,6 +911,10 @@ func checkC18(c *Check) {
 		c.Cond(okInit && hdr, "R18.6", "CompressingReader.init#frame", p.Pos(in.Pos()), "the compressing reader builds a sequential, non-legacy frame and writes the header into its output adapter before any block", "InitW(out, 1, false); Descriptor.Write", fmt.Sprintf("InitW(…,1,false): %v; header written: %v", okInit, hdr))
 	}
 	c.RuleDoc["R18.7"] = "the output adapter is rewound before every error-free return that follows reset(p)"
+	ruleDoneOnEveryError(c, p, "R18.13")
+	c.RuleDoc["R18.13"] = "every failing Read ends the compressing reader (the deferred epilogue skips the transition only when err == nil)"
+	ruleNoDoubleRelease(c, p, "R18.14", "CompressingReader")
+	c.RuleDoc["R18.14"] = "= R08.16 for the compressing reader's input buffer"
 	ruleSizeOptionArms(c, p, "R18.12")
 	c.RuleDoc["R18.12"] = "SizeOption sets flag and size unconditionally for the compressing reader as for the Writer"
 	ruleAdapterAccounting(c, p, "R18.11")
